@@ -68,8 +68,12 @@ def model_values(model, names):
 
 def discharge(ob, timeout_s=10.0, all_backends=False):
     """Returns dict(result=discharged|refuted|undischarged, backend, seconds, model, tried)."""
-    f = ob.formula()
     want_sat = ob.expect == "sat"
+    if not want_sat and z3.is_true(ob.goal):
+        # the clause was reduced to `true` by term rewriting during symbolic execution (e.g. the ghost call log already holds
+        # the very term the clause names): counted, discharged by the simplifier, no solver query
+        return dict(result="discharged", backend="z3-simplifier", seconds=0.0, model=None, tried=[("z3-simplifier", "unsat", 0.0)])
+    f = ob.formula()
     tried = []
     t_total = time.time()
 
